@@ -1,5 +1,5 @@
 import KyupyVerif.Proofs.SubstSem9
-/-! Helper lemmas for C10 (`resolve_sem`): `resolve_tlib_cells` as a chain of regular substitutions — by induction over
+/-! Helper lemmas for C10 (`resolve_sem`): `resolve_tlib_cells` as a chain of substitutions in which nothing is removed — by induction over
 the loop, the labellings of the final circuit correspond to the labellings of the original circuit in which every library
 cell has the relational meaning of its implementation. -/
 namespace KV.Transform
